@@ -1,6 +1,9 @@
 package strutil
 
-import "strings"
+import (
+	"strings"
+	"unicode/utf8"
+)
 
 // HasSubseq determines whether s has t as its subsequence. A string t is a
 // subsequence of a string s if and only if there is a possible sequence of
@@ -11,7 +14,10 @@ func HasSubseq(s, t string) bool {
 		if i == -1 {
 			return false
 		}
-		s = s[i+len(string(p)):]
+		// Skip what was matched in s, which is a single invalid byte rather
+		// than len(string(p)) bytes when p is U+FFFD.
+		_, n := utf8.DecodeRuneInString(s[i:])
+		s = s[i+n:]
 	}
 	return true
 }
